@@ -27,6 +27,8 @@ RULE = ('every bundled matrix name (from _submat_files()) in upper, lower and ra
         '(run_C20m) under 9 line terminators; "numtok": single cell words (random over 0-9._eE+-, exponent forms, underscores, inf/nan, junk; thorough: every word of <= 4 characters over 01._e+-) read by '
         'CPython int()/float(), by the model, and as the only cell of a row by submat; "fsdir": a scratch working directory with regular files, directories, symbolic links (to files, to directories, '
         'dangling, loops, chains of up to 42 links) and submat(name) as str or Path; file locations and names also as another os.PathLike, a str subclass and (existing files) bytes; names as pathlib.Path; pieces of the joined listing as unknown names; histories return object identities and the final content of every object; '
+        '"proc" stream (extra check, child processes): relative user files, shadowing files and bundled names loaded before and after in-process '
+        'entry points of sugar (scripts.run/cli sub-commands, read/write of archives, FastaIndex) with os.getcwd() required unchanged; '
         'non-trivial = distinct case with a branch marker')
 TRUSTED = ['CPython text layer (open() in text mode with universal newlines, UTF-8 decoding), str.split/strip/splitlines/'
            'upper, int(), float(), dict insertion order: modelled for ASCII and compared on every case',
@@ -1081,6 +1083,8 @@ def impl_cwdfile(case):
 
 
 def impl(case):
+    if case['op'] == 'proc':                  # replay of a finding of extra_proc: the whole history again, in a child process
+        return proc_run([proc_norm(case)])[0]
     from sugar.data import submat
     if case['op'] == 'hist':
         return impl_history(case)
@@ -1132,6 +1136,8 @@ OUTSIDE_MODEL = 'out (VL [VB false; VNone])'      # text beyond code point 255: 
 
 
 def model_term(case):
+    if case['op'] == 'proc':
+        return OUTSIDE_MODEL
     if case['op'] == 'cwdfile':
         fname, call, txt, aspath = cwd_norm(case)
         if not in_model(txt):
@@ -1364,6 +1370,9 @@ def spec_history(case, got):
 
 
 def spec(case, got):
+    if case['op'] == 'proc':
+        v = proc_verdict(proc_norm(case), got) if isinstance(got, list) else None
+        return v[1] if v else None
     if case['op'] == 'hist':
         return spec_history(case, got)
     if case['op'] == 'cwdfile':
@@ -1479,7 +1488,7 @@ def gen_unicode_file(rng):
     return c
 
 
-def extra_checks(rng, tier, cov):
+def extra_unicode(rng, tier, cov):
     """Files with letters beyond the Latin-1 range cannot be carried by the Coq model (one byte per code point); they are
     written as UTF-8, loaded by submat (str or Path) and compared with the oracle's positional reading of the ABSTRACT words."""
     from framework import run_impl, jcanon
@@ -1505,10 +1514,298 @@ def extra_checks(rng, tier, cov):
     cov['unicode_files_beyond_latin1'] = beyond
 
 
+# ----------------------------------------------------------------------------- process state across sugar's entry points (child process)
+
+# in-process entry points of sugar that may touch the state of the process (working directory, environment, sys.path, open handles):
+# name -> statement run in the child, whose working directory is a private scratch directory holding the files of PROC_INPUTS
+PROC_ACTIONS = {
+    'run-test-version': "scripts.run('test', pytest_args=['--version'])",
+    'cli-test-usage-error': "scripts.cli(['test', '--no-such-option-c20'])",
+    'cli-test': "scripts.cli(['test', '-q', '-p', 'no:cacheprovider', '-k', 'no_such_test_c20'])",
+    'run-test': "scripts.run('test', pytest_args=['-q', '-p', 'no:cacheprovider', '-k', 'no_such_test_c20', 'test_data.py'])",
+    'cli-test-collect': "scripts.cli(['test', '--collect-only', '-q', '-p', 'no:cacheprovider', 'test_data.py'])",
+    'cli-version': "scripts.cli(['--version'])",
+    'cli-no-args': "scripts.cli([])",
+    'cli-help': "scripts.cli(['-h'])",
+    'cli-test-help': "scripts.cli(['test', '-h'])",
+    'cli-unknown': "scripts.cli(['frobnicate'])",
+    'run-unknown': "scripts.run('frobnicate')",
+    'cli-print': "scripts.cli(['print', 'seqs.fasta'])",
+    'cli-print-raw-sub': "scripts.cli(['print', '--raw', 'sub/seqs2.fasta'])",
+    'cli-print-missing': "scripts.cli(['print', 'missing.fasta'])",
+    'run-print': "scripts.run('print', fname='seqs.fasta')",
+    'cli-printf': "scripts.cli(['printf', 'fts.gff'])",
+    'cli-convert-stdout': "scripts.cli(['convert', 'seqs.fasta', '-fo', 'stockholm'])",
+    'cli-convert-out': "scripts.cli(['convert', 'seqs.fasta', '-o', 'out/conv.stk'])",
+    'cli-convert-zip': "scripts.cli(['convert', 'arch.zip', '-fo', 'fasta'])",
+    'cli-convertf': "scripts.cli(['convertf', 'fts.gff', '-fo', 'gff'])",
+    'cli-translate-str': "scripts.cli(['translate', 'ATGAAATAG'])",
+    'cli-translate-file': "scripts.cli(['translate', 'seqs.fasta', '-f', 'fasta'])",
+    'cli-translate-out': "scripts.cli(['translate', 'seqs.fasta', '-f', 'fasta', '-o', 'out/prot.fasta'])",
+    'cli-index-create': "scripts.cli(['index', 'create', 'out/db.idx'])",
+    'cli-index-create-db': "scripts.cli(['index', 'create', '-m', 'db', 'out/db2.idx'])",
+    'cli-index-add': "scripts.cli(['index', 'add', '-d', 'out/db.idx', 'seqs.fasta'])",
+    'cli-index-info': "scripts.cli(['index', 'info', '-d', 'out/db.idx'])",
+    'cli-index-fetch': "scripts.cli(['index', 'fetch', '-d', 'out/db.idx', 'seq1'])",
+    'cli-index-usage-error': "scripts.cli(['index', 'fetch'])",
+    'fastaindex-create': "from sugar.index.fastaindex import FastaIndex; FastaIndex('out/db3.idx', create=True, mode='binary').add(['seqs.fasta', 'sub/seqs2.fasta'])",
+    'fastaindex-get': "from sugar.index.fastaindex import FastaIndex; FastaIndex('out/db3.idx').get('seq1')",
+    'read-plain': "sugar.read('seqs.fasta')",
+    'read-path': "sugar.read(pathlib.Path('sub') / 'seqs2.fasta')",
+    'read-glob': "sugar.read('s*/seqs*.fasta')",
+    'read-example': "sugar.read()",
+    'read-zip': "sugar.read('arch.zip')",
+    'read-tar': "sugar.read('arch.tar.gz')",
+    'read-gz': "sugar.read('seqs.fasta.gz')",
+    'read-missing': "sugar.read('missing.fasta')",
+    'read-fts': "sugar.read_fts('fts.gff')",
+    'iter': "list(sugar.iter_('seqs.fasta'))",
+    'write-plain': "sugar.read('seqs.fasta').write('out/w.fasta')",
+    'write-zip': "sugar.read('seqs.fasta').write('out/wz.fasta', archive='zip')",
+    'write-gz': "sugar.read('seqs.fasta').write('out/wg.fasta', archive='gz')",
+    'submat-dir': "submat('sub')",
+    'submat-unknown': "submat('xyz')",
+}
+PROC_GROUPS = {
+    'test': ['run-test-version', 'cli-test-usage-error', 'cli-test', 'run-test', 'cli-test-collect'],
+    'cli': ['cli-version', 'cli-no-args', 'cli-help', 'cli-test-help', 'cli-unknown', 'run-unknown', 'submat-dir', 'submat-unknown'],
+    'print': ['cli-print', 'cli-print-raw-sub', 'cli-print-missing', 'run-print', 'cli-printf'],
+    'convert': ['cli-convert-stdout', 'cli-convert-out', 'cli-convert-zip', 'cli-convertf', 'cli-translate-str', 'cli-translate-file',
+                'cli-translate-out'],
+    'index': ['cli-index-create', 'cli-index-create-db', 'cli-index-add', 'cli-index-info', 'cli-index-fetch', 'cli-index-usage-error',
+              'fastaindex-create', 'fastaindex-get'],
+    'read': ['read-plain', 'read-path', 'read-glob', 'read-example', 'read-zip', 'read-tar', 'read-gz', 'read-missing', 'read-fts', 'iter',
+             'write-plain', 'write-zip', 'write-gz'],
+}
+PROC_INPUTS = {'seqs.fasta': '>seq1 first\nATGAAACCCGGGTTTTAG\n>seq2\nATGCCCAAATGA\n', 'sub/seqs2.fasta': '>seq3\nATGGGGTAA\n',
+               'fts.gff': '##gff-version 3\nseq1\t.\tgene\t1\t18\t.\t+\t.\tID=g1\nseq1\t.\tCDS\t1\t18\t.\t+\t0\tID=c1;Parent=g1\n'}
+# label -> (file the form reaches or None, expression evaluated in the child giving the argument of submat, bundled name or None)
+PROC_FORMS = {'rel-str': ('user.mat', "'user.mat'", None), 'rel-dot': ('user.mat', "'./user.mat'", None),
+              'rel-path': ('user.mat', "pathlib.Path('user.mat')", None), 'sub-str': ('sub/inner.mat', "'sub/inner.mat'", None),
+              'sub-path': ('sub/inner.mat', "pathlib.Path('sub') / 'inner.mat'", None), 'sub-dotdot': ('user.mat', "'sub/../user.mat'", None),
+              'shadow': ('blosum62', "'blosum62'", None), 'shadow-upper-path': ('NUC.4.4', "pathlib.Path('NUC.4.4')", None),
+              'abs-str': ('user.mat', "ABS + '/user.mat'", None),
+              'bundled': (None, "'pam250'", 'PAM250'), 'bundled-mixed': (None, "'Blosum45'", 'BLOSUM45'),
+              'bundled-other-case': (None, "'BLOSUM62'", 'BLOSUM62'), 'unknown': (None, "'user.matrix'", None)}
+PROC_CHILD = r'''
+import sys, os, json, pathlib, io
+sys.dont_write_bytecode = True
+repo, resfile, job = sys.argv[1], sys.argv[2], json.loads(sys.argv[3])
+sys.path.insert(0, repo)
+ABS = os.getcwd()
+for name, data in job['files'].items():
+    if os.path.dirname(name):
+        os.makedirs(os.path.dirname(name), exist_ok=True)
+    with open(name, 'wb') as f:
+        f.write(data.encode('latin-1'))
+os.makedirs('out', exist_ok=True)
+import zipfile, tarfile, gzip
+with zipfile.ZipFile('arch.zip', 'w') as z:
+    z.write('seqs.fasta')
+with tarfile.open('arch.tar.gz', 'w:gz') as t:
+    t.add('seqs.fasta')
+with gzip.open('seqs.fasta.gz', 'wb') as g:
+    g.write(open('seqs.fasta', 'rb').read())
+import sugar
+from sugar import scripts
+from sugar.data import submat
+def num(v):
+    if isinstance(v, bool):
+        return {'bool': v}
+    if isinstance(v, int):
+        return v
+    if isinstance(v, float):
+        return {'f': (0.0 if v == 0 else v).hex()}
+    return {'other': repr(v)}
+def probe():
+    loads = {}
+    for label, expr in job['forms'].items():
+        try:
+            m = submat(eval(expr))
+            loads[label] = [[r, [[c, num(v)] for c, v in row.items()]] for r, row in m.items()]
+        except FileNotFoundError as e:
+            loads[label] = ['fnf', str(e)[:60]]
+        except Exception as e:
+            loads[label] = {'e': type(e).__name__}
+    try:
+        cwd = os.getcwd()
+    except Exception as e:
+        cwd = 'os.getcwd() raised ' + type(e).__name__
+    return {'cwd': cwd, 'loads': loads}
+steps = [['start', 'ok', probe()]]
+def flush():
+    with open(resfile, 'w') as f:
+        json.dump(steps, f)
+flush()
+for a in job['actions']:
+    try:
+        exec(job['code'][a])
+        o = 'ok'
+    except SystemExit as e:
+        o = 'exit'
+    except BaseException as e:
+        o = 'raise:' + type(e).__name__
+    steps.append([a, o, probe()])
+    flush()
+'''
+
+
+def gen_procfile(rng, letters):
+    """a small user matrix (text, expected dict) with numbers of its own, so that a mix-up of files or with a bundled matrix shows"""
+    rows, exp = [' '.join(letters)], {}
+    for r in letters:
+        dec = rng.random() < 0.4
+        vals = [(rng.randint(-99, 99) + rng.choice([0.5, 0.25, 0.0])) if dec else rng.randint(-99, 99) for _ in letters]
+        rows.append(r + ' ' + ' '.join(repr(v) for v in vals))
+        exp[r] = dict(zip(letters, vals))
+    return '# user matrix\n' + '\n'.join(rows) + '\n', exp
+
+
+def proc_jobs(rng, tier):
+    groups = [(g, list(a)) for g, a in PROC_GROUPS.items()]
+    allacts = sorted(PROC_ACTIONS)
+    for i in range(12 if tier == 'thorough' else 2):       # mixed histories over all entry points, random order
+        groups.append(('mixed%d' % i, rng.sample(allacts, 8)))
+    if tier == 'thorough':
+        groups += [('single:' + a, [a]) for a in allacts]
+    jobs = []
+    for g, acts in groups:
+        files, exps = dict(PROC_INPUTS), {}
+        for fname, letters in (('user.mat', 'AC'), ('sub/inner.mat', 'ACG'), ('blosum62', 'AR'), ('NUC.4.4', 'AT')):
+            files[fname], exps[fname] = gen_procfile(rng, letters)
+        jobs.append({'op': 'proc', 'group': g, 'actions': acts, 'files': files, '_exp': exps})
+    return jobs
+
+
+def proc_norm(case):
+    """a stored case as a job: known actions only, expected numbers read from the text of the files by the oracle's own reader"""
+    files = {str(k): str(v) for k, v in (case.get('files') or {}).items()} if isinstance(case.get('files'), dict) else {}
+    files = dict(PROC_INPUTS, **{k: v for k, v in files.items() if not os.path.isabs(k) and '..' not in k})
+    exps = {}
+    for fname in ('user.mat', 'sub/inner.mat', 'blosum62', 'NUC.4.4'):
+        if fname not in files:
+            files[fname] = 'A C\nA 1 2\nC 2 1\n'
+        wl = [re.findall(r'[^ \t\r\n]+', l) for l in files[fname].split('\n')]
+        exps[fname] = expected_from_words([ws for ws in wl if ws and not ws[0].startswith('#')])
+    return {'op': 'proc', 'group': case.get('group'), 'actions': [a for a in (case.get('actions') or []) if a in PROC_ACTIONS],
+            'files': files, '_exp': exps}
+
+
+def proc_run(jobs, par=4, timeout=600):
+    """every job in a child process of its own: private scratch directory as working directory (removed afterwards), HOME / cache / TMPDIR
+    inside it, stdin closed, stdout / stderr captured; returns the steps [[action, outcome, probe], ...] or None (timeout / crash)"""
+    import subprocess, sys, json, time
+    from framework import REPO
+    out = [None] * len(jobs)
+    pending, running = list(enumerate(jobs)), []
+    while pending or running:
+        while pending and len(running) < par:
+            i, job = pending.pop(0)
+            d = tempfile.mkdtemp(prefix='C20-proc-')
+            for sub in ('cwd', 'home', 'tmp', 'res'):
+                os.mkdir(os.path.join(d, sub))
+            env = dict(os.environ, HOME=os.path.join(d, 'home'), XDG_CACHE_HOME=os.path.join(d, 'home', '.cache'),
+                       XDG_CONFIG_HOME=os.path.join(d, 'home', '.config'), TMPDIR=os.path.join(d, 'tmp'), PYTHONDONTWRITEBYTECODE='1',
+                       PYTHONWARNINGS='ignore')
+            env.pop('PYTHONPATH', None)
+            arg = {'files': job['files'], 'actions': job['actions'], 'code': {a: PROC_ACTIONS[a] for a in job['actions']},
+                   'forms': {k: v[1] for k, v in PROC_FORMS.items()}}
+            p = subprocess.Popen([sys.executable, '-c', PROC_CHILD, REPO, os.path.join(d, 'res', 'steps.json'), json.dumps(arg)],
+                                 cwd=os.path.join(d, 'cwd'), env=env, stdin=subprocess.DEVNULL, stdout=subprocess.DEVNULL,
+                                 stderr=subprocess.DEVNULL)
+            running.append((i, d, p, time.time()))
+        still = []
+        for i, d, p, t0 in running:
+            if p.poll() is None and time.time() - t0 < timeout:
+                still.append((i, d, p, t0))
+                continue
+            if p.poll() is None:
+                p.kill()
+                p.wait()
+            try:
+                with open(os.path.join(d, 'res', 'steps.json')) as f:
+                    out[i] = json.load(f)          # also after a timeout: the steps that were finished
+            except Exception:
+                out[i] = None
+            shutil.rmtree(d, ignore_errors=True)
+        running = still
+        if running:
+            time.sleep(0.05)
+    return out
+
+
+def proc_verdict(job, steps):
+    """(index of the first bad step, message) or None"""
+    if not steps:
+        return None
+    cwd0 = steps[0][2]['cwd']
+    for i, (a, o, pr) in enumerate(steps):
+        bad = []
+        for label, (fname, expr, bundled) in PROC_FORMS.items():
+            g = pr['loads'].get(label)
+            if fname is not None:
+                why = compare_matrix(g, job['_exp'][fname]) if job['_exp'].get(fname) is not None else None
+            elif bundled is not None:
+                exp = read_bundled(bundled)
+                why = compare_matrix(g, exp) if exp is not None else None
+            else:
+                why = None if (isinstance(g, list) and g and g[0] == 'fnf') else 'no FileNotFoundError for an unknown name'
+            if why:
+                bad.append((label, why))
+        where = 'before any entry point was run' if i == 0 else 'after the entry point %s (%s) in the same process' % (a, o)
+        if pr['cwd'] != cwd0:
+            return i, '%s: os.getcwd() is %r, was %r%s' % (where, pr['cwd'], cwd0,
+                                                           '; also changed: %r' % sorted(l for l, w in bad) if bad else '')
+        if bad:
+            label, why = bad[0]
+            return i, '%s: submat(%s) with the file ./%s in place: %s (failing forms: %r)' % (
+                where, PROC_FORMS[label][1], PROC_FORMS[label][0], why, sorted(l for l, w in bad)) if PROC_FORMS[label][0] else \
+                '%s: submat(%s): %s (failing forms: %r)' % (where, PROC_FORMS[label][1], why, sorted(l for l, w in bad))
+    return None
+
+
+def extra_proc(rng, tier, cov):
+    jobs = proc_jobs(rng, tier)
+    res = proc_run(jobs)
+    outcomes, nsteps, lost = {}, 0, 0
+    for job, steps in zip(jobs, res):
+        case = {k: v for k, v in job.items() if k != '_exp'}
+        if not steps or len(steps) != len(job['actions']) + 1:
+            lost += 1                           # child killed by the timeout / crashed: no opinion on the missing steps
+        for a, o, pr in (steps or [])[1:]:
+            outcomes[o.split(':')[0]] = outcomes.get(o.split(':')[0], 0) + 1
+            nsteps += 1
+        v = proc_verdict(job, steps)
+        if v is None:
+            continue
+        i, msg = v
+        case = dict(case, actions=job['actions'][:i])                # the history up to the first bad step
+        if i > 1:                               # shrink the history: the entry point alone
+            small = dict(job, actions=[job['actions'][i - 1]])
+            s2 = proc_run([small])[0]
+            v2 = proc_verdict(small, s2)
+            if v2 is not None:
+                case, steps, (i, msg) = {k: w for k, w in small.items() if k != '_exp'}, s2, v2
+        yield {'case': case, 'impl': [[a, o, pr['cwd']] for a, o, pr in steps[:i + 1]], 'spec': msg}
+    cov['proc_children'] = len(jobs)
+    cov['proc_steps'] = nsteps
+    cov['proc_outcomes'] = outcomes
+    cov['proc_children_incomplete'] = lost
+
+
+def extra_checks(rng, tier, cov):
+    for v in extra_unicode(rng, tier, cov):
+        yield v
+    for v in extra_proc(rng, tier, cov):
+        yield v
+
+
 # ----------------------------------------------------------------------------- evidence helpers
 
 def nontrivial(case, got):
     marks = []
+    if case['op'] == 'proc':
+        return ['proc:' + str(case.get('group'))]
     if case['op'] == 'hist':
         acts = plan(case)
         seen = set()
@@ -1607,6 +1904,8 @@ def nontrivial(case, got):
 
 
 def histkey(case, got):
+    if case['op'] == 'proc':
+        return ['op=proc']
     if case['op'] == 'hist':
         acts = plan(case)
         return ['op=hist', 'hist:calls=%d' % len([a for a in acts if a[0] in ('name', 'file')])] + \
@@ -1640,6 +1939,18 @@ def histkey(case, got):
 
 
 def python_snippet(case):
+    if case['op'] == 'proc':
+        ls = ['import os, tempfile, pathlib, zipfile, tarfile, gzip; import sugar; from sugar import scripts; from sugar.data import submat',
+              'os.chdir(tempfile.mkdtemp()); os.makedirs("sub"); os.makedirs("out"); ABS = os.getcwd()']
+        for n, t in case['files'].items():
+            ls.append('open(%r, "w").write(%r)' % (n, t))
+        ls += ['zipfile.ZipFile("arch.zip", "w").write("seqs.fasta"); tarfile.open("arch.tar.gz", "w:gz").add("seqs.fasta"); '
+               'gzip.open("seqs.fasta.gz", "wb").write(open("seqs.fasta", "rb").read())',
+               'def probe():\n    print(os.getcwd())\n    for a in [%s]:\n        try: print(repr(a), submat(a))\n        except Exception as e: print(repr(a), type(e).__name__)' % ', '.join(v[1] for v in PROC_FORMS.values()),
+               'probe()']
+        for a in case['actions']:
+            ls.append('try:\n    %s\nexcept BaseException as e:\n    print(type(e).__name__)\nprobe()   # after %s' % (PROC_ACTIONS.get(a, 'pass'), a))
+        return '\n'.join(ls)
     if case['op'] == 'cwdfile':
         fname, call, txt, aspath = cwd_norm(case)
         return ("import os, tempfile, pathlib; from sugar.data import submat\n"
@@ -1708,7 +2019,15 @@ LEVEL_TEXT = ('Machine-checked Coq theorems over the regenerated raw bytes of al
               'and the current file content; the functools.lru_cache variant of the fixed defect F41 is refuted, C20_cached_variant_refuted). '
               'The hand-written model of submat() is tied to sugar by differential testing of all cells of all bundled files under several '
               'spellings (str and Path), of generated files, of files whose text, number literals and expected result are produced by the '
-              'model itself, of single cell words, of directories with links, and of multi-call histories with object identities.')
+              'model itself, of single cell words, of directories with links, and of multi-call histories with object identities. PROCESS STATE stream '
+              '(oracle only, in child processes with a private scratch working directory): user matrix files reachable by relative names '
+              '(str, "./x", "sub/x", "sub/../x", pathlib.Path, files shadowing the bundled names blosum62 and NUC.4.4), an absolute path, '
+              'bundled names and an unknown name are loaded before and after every one of 46 in-process entry points of sugar '
+              '(sugar.scripts.run / cli: test with --version, a usage error, -k matching nothing, --collect-only; --version, -h, usage errors; '
+              'print, printf, convert, convertf, translate, index create/add/info/fetch; sugar.read of plain, Path, glob, zip, tar.gz, gz and '
+              'missing files, read_fts, iter_, write plain and to archives, FastaIndex creation and query), in fixed groups and random mixed '
+              'orders (thorough: also each alone): os.getcwd() must not change and every form must still give the numbers of its file, the '
+              'bundled matrix, or FileNotFoundError.')
 LEVEL_NOTE = ('Trusted: Coq kernel/vm_compute, tools/gens/c20.py (byte copy; length+checksum re-verified in Coq against the disk file), the '
               'correspondence harness, CPython str/int/float/open/os.path.isfile/pathlib/importlib.resources. Modelled rather than verified: '
               'submat() and _submat_files(); decoded text over code points 0..255 (the locale\'s default text encoding is assumed to be '
@@ -1724,5 +2043,9 @@ LEVEL_NOTE = ('Trusted: Coq kernel/vm_compute, tools/gens/c20.py (byte copy; len
               'floats, and in a short row it is read as a cell); reported, not treated as a defect (the property speaks of the layout of '
               'the bundled files, which have whole-line comments only). Measured reach: every statement of submat and _submat_files is '
               'executed in the quick tier except the def lines, which run at import time before the measurement starts. '
+              'Stability of the working directory (and of whatever else submat depends on) across sugar\'s other entry points is TESTED ONLY '
+              '(process-state stream; the resolve model C20_fs_resolution takes the file system of the current working directory as an '
+              'input, there is no model of os.chdir or of the entry points themselves; the outcome of an entry point - ok, SystemExit, '
+              'exception - is recorded but not judged; a child that exceeds its timeout gives no opinion on its missing steps). '
               'All theorems closed under the global context (no axioms).')
 TECHNIQUE = 'Coq proof (finite enumeration by vm_compute over regenerated data + structural lemmas) with differential model/code correspondence'
